@@ -9,12 +9,13 @@ EXTENDS MC_Loader
 Kind == [LdIn |-> "loaded.in", LdGet |-> "loaded.get", LgIn |-> "loading.in", LgGet |-> "loading.get",
          Join |-> "join", Joined |-> "joined", LgPop |-> "loading.pop", Pub |-> "loaded.set",
          DfLdIn |-> "loaded.in", DfLgIn |-> "loading.in", DfSet |-> "loading.set", DfGet |-> "loading.get",
-         DfStart |-> "start", MBegin |-> "begin", TBegin |-> "begin", RfClear |-> "loaded.clear"]
+         DfStart |-> "start", MBegin |-> "begin", TBegin |-> "begin", RfClear |-> "loaded.clear", MTouch |-> "touch"]
 IsAccess(p) == pc[p] \in DOMAIN Kind
 IsLocal(p) == pc[p] \notin DOMAIN Kind /\ pc[p] \notin {"Done", "HDead", "DDead"}
 \* the argument the model's process would use at its current label
 ArgU(p) == CASE pc[p] \in {"LdIn", "LdGet", "LgIn", "LgGet", "LgPop"} -> u[p]
              [] pc[p] = "Pub" -> v[p]
+             [] pc[p] = "MTouch" -> Prog[k[p]][2]
              [] pc[p] \in {"DfLdIn", "DfLgIn", "DfSet", "DfGet"} -> w[p]
              [] OTHER -> "-"
 ArgT(p) == CASE pc[p] \in {"Join", "Joined"} -> jt[p]
